@@ -84,6 +84,15 @@ func c11Case(c *hx.Ctx, r *hx.RNG, idx int64) {
 				panic("MarshalText error: " + err.Error())
 			}
 			text = string(b)
+			// the returned slice is the caller's: recycling it (here: overwriting it up to its capacity) must not
+			// change what the next call returns
+			b = b[:cap(b)]
+			for i := range b {
+				b[i] = 'X'
+			}
+			if b2, _ := x.MarshalText(); string(b2) != text {
+				panic(fmt.Sprintf("MarshalText returned %q, and %q after the first result had been overwritten by its owner", trunc120(text), trunc120(string(b2))))
+			}
 		case "JSON":
 			b, err := json.Marshal(x)
 			if err != nil {
